@@ -7,7 +7,7 @@ def tree(name, N, keys, strs, nums, kinds, feats, maxfail=0, circ=2, flavour='pl
         'name': name, 'module': 'MC_Tree', 'mode': 'tree', 'flavour': flavour, 'timeout': timeout,
         'view': 'View', 'invariants': ['InvWellFormed', 'InvNoLeak', 'InvLeafNoKids', 'InvEmit'],
         'constants': {
-            'N': N, 'Keys': '<-Keys%d' % keys, 'KeySeq': '<-KeySeq%d' % keys, 'Strs': '<-Strs%d' % strs,
+            'N': N, 'Keys': '<-Keys%d' % keys, 'KeySeq': '<-KeySeq%d' % keys, 'QKeySeq': '<-QKeySeq%d' % keys, 'Strs': '<-Strs%d' % strs,
             'StrSeq': '<-StrSeq%d' % strs, 'Nums': nums, 'LeafKinds': '<-Kinds' + kinds, 'Features': '<-Feat' + feats,
             'MaxFail': maxfail, 'CircularLimit': circ, 'Emit': 'TRUE',
         },
@@ -25,7 +25,8 @@ TREE_ASSUME = [
 
 PLANS = {
     'C06': {
-        'quick': [tree('S3', 3, 1, 2, '{1}', 'S', 'S'), tree('K3', 3, 2, 2, '{1}', 'K', 'K')],
+        'quick': [tree('S3', 3, 1, 2, '{1}', 'S', 'S'), tree('K3', 3, 2, 2, '{1}', 'K', 'K'), tree('KB3', 3, 4, 2, '{1}', 'K', 'KB'),
+                  tree('RS4', 4, 1, 2, '{1}', 'S', 'RS')],
         'thorough': [tree('S4', 4, 1, 2, '{1}', 'S', 'S'), tree('K3', 3, 2, 2, '{1}', 'K', 'K'),
                      tree('R3', 3, 1, 2, '{1}', 'R', 'R')],
         'rule': 'every transition (state, public call, arguments) of the reachable state graph of Tree.tla within the bounds, '
@@ -39,6 +40,47 @@ PLANS = {
                       'heap (links, keys, values, flags, allocator blocks, results, query answers) compared. Right level because the property quantifies over histories.',
         'level_note': 'bounded: node slots N<=3 (quick) / 4 (thorough), small key/value alphabets; completeness of the heap abstraction (DESIGN 4.2); TLC and the driver are trusted',
     },
+}
+TREE_NOTE = 'bounded: node slots N<=5, small key/value alphabets, one failing request per call; completeness of the heap abstraction (DESIGN 4.2); TLC and the driver (tracking allocator, caller-memory checksums) are trusted'
+TREE_RULE = ('every transition (state, public call, arguments, failing-request index) of the reachable state graph of Tree.tla within the bounds and every '
+             'distinct state; after every replayed transition all caller-held roots are deleted and the allocator must be back at balance; non-trivial = the '
+             'call changes the heap or the state has a container to query; cases are distinct by construction')
+PLANS['C07'] = {
+    'quick': [tree('O3', 3, 1, 2, '{1}', 'O', 'O'), tree('RS4', 4, 1, 2, '{1}', 'S', 'RS')],
+    'thorough': [tree('O3', 3, 1, 2, '{1}', 'O', 'O'), tree('RS4', 4, 1, 2, '{1}', 'S', 'RS'), tree('R3', 3, 1, 2, '{1}', 'R', 'R'),
+                 tree('O3asan', 3, 1, 2, '{1}', 'O', 'O', flavour='asan'), tree('D4', 4, 1, 2, '{1}', 'SA', 'D4')],
+    'rule': TREE_RULE, 'assumptions': TREE_ASSUME,
+    'technique': 'TLC exploration of Tree.tla with ownership bits, reference nodes, constant and aliased keys; single-ownership and no-leak invariants; every transition replayed under an owning-census allocator with caller-memory checksums, then all roots deleted',
+    'level_text': 'Ownership is a state-machine property over histories: TLC checks on every reachable state that each live block has exactly one owner reachable from a caller-held root and that borrowed memory is never owned; every transition is replayed on the real library under a census allocator (leak, double/foreign free, shared owned block, dangling owner, modified borrowed memory) and then every root is deleted and the balance must be zero.',
+    'level_note': TREE_NOTE,
+}
+PLANS['C08'] = {
+    'quick': [tree('F3', 3, 1, 2, '{1}', 'R', 'F', maxfail=9), tree('DF5', 5, 1, 1, '{1}', 'SA', 'DF', maxfail=9)],
+    'thorough': [tree('F3', 3, 1, 2, '{1}', 'R', 'F', maxfail=9), tree('DF5', 5, 1, 1, '{1}', 'SA', 'DF', maxfail=9),
+                 tree('F3asan', 3, 1, 2, '{1}', 'R', 'F', maxfail=9, flavour='asan')],
+    'rule': TREE_RULE, 'assumptions': TREE_ASSUME,
+    'technique': 'TLC enumeration of state x call x index of the refused allocation request in Tree.tla (requests listed in code order), clean-failure action property; every such transition replayed with a failing allocator and judged by "completes normally or fails with state and ledger unchanged"',
+    'level_text': 'The fault quantifier (every k) is a nondeterministic parameter of each specification action, so TLC enumerates state x call x k exhaustively within the bounds and checks the clean-failure property on the specification; the same transitions are replayed on the real code with request k refused and the outcome must be the success state or the untouched pre-state with a NULL/false result.',
+    'level_note': TREE_NOTE,
+}
+PLANS['C11'] = {
+    'quick': [tree('D4', 4, 1, 2, '{1}', 'SA', 'D4'), tree('OD4', 4, 1, 1, '{1}', 'O', 'OD'),
+              tree('DL5', 5, 1, 1, '{1}', 'A', 'DL', maxfail=9, circ=1, flavour='limits')],
+    'thorough': [tree('D4', 4, 1, 2, '{1}', 'SA', 'D4'), tree('OD4', 4, 1, 1, '{1}', 'O', 'OD'),
+                 tree('DL5', 5, 1, 1, '{1}', 'A', 'DL', maxfail=9, circ=1, flavour='limits'),
+                 tree('D4asan', 4, 1, 2, '{1}', 'SA', 'D4', flavour='asan')],
+    'rule': TREE_RULE, 'assumptions': TREE_ASSUME + ['the depth-limit logic is exercised in a build with -DCJSON_CIRCULAR_LIMIT=1 (a documented #ifndef knob) against the specification constant CircularLimit = 1'],
+    'technique': 'Duplicate is an action of Tree.tla (field copy, reference bit cleared, string/key copies, child loop, depth limit, failure path); TLC explores every later edit/delete history on source and copy; every transition replayed with pointer-disjointness (census) and full heap comparison; cyclic structures via an environment action',
+    'level_text': 'Independence of source and copy is a property of all later histories: because Duplicate is just another transition of the heap machine, TLC explores every subsequent edit and delete on either tree and the single-ownership invariant forbids any shared owned block; every transition is replayed on the real code with the census allocator.',
+    'level_note': TREE_NOTE,
+}
+PLANS['C19'] = {
+    'quick': [tree('SORT4m', 4, 5, 2, '{1}', 'K', 'SortMin'), tree('SORT3', 3, 2, 2, '{1}', 'K', 'Sort')],
+    'thorough': [tree('SORT4m', 4, 5, 2, '{1}', 'K', 'SortMin'), tree('SORT4', 4, 3, 2, '{1}', 'K', 'Sort'), tree('SORT5', 5, 5, 2, '{1}', 'K', 'SortMin', timeout=3000)],
+    'rule': TREE_RULE, 'assumptions': TREE_ASSUME,
+    'technique': 'pointer-level transcription of sort_list/sort_object in Tree.tla checked by TLC against "sorted permutation of the same nodes, idempotent, well-formed"; sort is an action of the heap machine so every later edit history is explored; all transitions replayed with full heap comparison (order among equal keys left open)',
+    'level_text': 'TLC proves on every reachable object (all key sequences over the alphabet incl. duplicates and case variants, both variants) that the transcribed merge sort yields a sorted permutation of the same member nodes with intact sibling links and is idempotent, and explores all edits after a sort; the real code is driven through the same transitions and every link of the resulting heap is compared.',
+    'level_note': TREE_NOTE,
 }
 NOT_CLAIMED = {}
 
